@@ -213,7 +213,8 @@ namespace c20 {
 enum Shape { ATOMIC, APPEND, TRUNC, REFILL, MIXED };
 
 struct Run {
-    GuardedMM mm;
+    GuardedMM mm, mm2;                                      // mm2: the second container's own manager when the plan asks for one (knobs.mm2)
+    xercesc::MemoryManager& mmB() { return plan.at("knobs").num("mm2", 0) ? (xercesc::MemoryManager&)mm2 : (xercesc::MemoryManager&)mm; }
     Result& res; Trace& tr; const Json& plan;
     bool modeB = false;
     std::string cont, elem;
